@@ -52,6 +52,58 @@ pub fn tokens(format: &str) -> Vec<&'static [u8]> {
     t
 }
 
+/// Well-formed circuits of about 50 KiB (more than three default chunks): many inputs, a chain of
+/// and gates, symbols for the inputs and a multi-line comment.
+pub fn long_docs(format: &str) -> Vec<Doc> {
+    let inputs = 1500usize;
+    let gates = 3000usize;
+    let m = inputs + gates;
+    let mut d = Vec::new();
+    if format == "aag" {
+        d.extend_from_slice(format!("aag {m} {inputs} 0 2 {gates}\n").as_bytes());
+        for i in 1..=inputs {
+            d.extend_from_slice(format!("{}\n", 2 * i).as_bytes());
+        }
+        d.extend_from_slice(format!("{}\n{}\n", 2 * m, 2 * m + 1).as_bytes());
+        for g in 1..=gates {
+            let lhs = 2 * (inputs + g);
+            let a = lhs - 2;
+            let b = 2 * (g % inputs + 1) + (g % 2);
+            let (x, y) = if a >= b { (a, b) } else { (b, a) };
+            d.extend_from_slice(format!("{lhs} {x} {y}\n").as_bytes());
+        }
+    } else {
+        d.extend_from_slice(format!("aig {m} {inputs} 0 2 {gates}\n").as_bytes());
+        d.extend_from_slice(format!("{}\n{}\n", 2 * m, 2 * m + 1).as_bytes());
+        let push_varint = |d: &mut Vec<u8>, mut v: usize| {
+            while v >= 0x80 {
+                d.push((v & 0x7f) as u8 | 0x80);
+                v >>= 7;
+            }
+            d.push(v as u8);
+        };
+        for g in 1..=gates {
+            let lhs = 2 * (inputs + g);
+            let a = lhs - 2;
+            let b = 2 * (g % inputs + 1) + (g % 2);
+            let (x, y) = if a >= b { (a, b) } else { (b, a) };
+            push_varint(&mut d, lhs - x);
+            push_varint(&mut d, x - y);
+        }
+    }
+    for i in 0..inputs {
+        d.extend_from_slice(format!("i{i} input number {i} {}\n", "n".repeat(i % 23)).as_bytes());
+    }
+    d.extend_from_slice(b"o1 second output\nc\n");
+    for i in 0..200 {
+        d.extend_from_slice(format!("comment line {i} {}\n", "c".repeat(i % 37)).as_bytes());
+    }
+    let mut bad = d.clone();
+    let k = bad.len() * 2 / 3;
+    bad[k] = 0xff;
+    vec![Doc::new(format!("^{format}:long"), d), Doc::new(format!("^{format}:long-corrupted"), bad)]
+}
+
 pub struct Inputs {
     pub corpus: Vec<Doc>,
     pub neighbours: Vec<Doc>,
@@ -107,6 +159,7 @@ pub fn inputs_seq(format: &str, tier: Tier, seq_len: usize) -> Inputs {
             }
         }
     }
+    nb.extend(long_docs(format));
     let sequences = dedup_docs(token_sequences(&tokens(format), seq_len));
     // all short strings over a 10-symbol alphabet (arbitrary inputs)
     let mut sequences = sequences;
